@@ -394,14 +394,35 @@ def run(ctx):
                 if len(phis_) != 1:
                     continue
                 d = fs.defs[phis_[0]]
-                for v_, _l in d.incoming:
-                    init = pce.val(v_)
-                    if init.atoms() & {x.res for x in fs.insts() if x.op == 'phi'}:
+                # the counter may reach the comparison through merges (after a `break`, behind the `if` that counts): walk the
+                # web of merges back to the values that enter it from outside (its start) and the amounts it moves by
+                allphi = {x.res: x for x in fs.insts() if x.op == 'phi'}
+                web_, todo_ = set(), [d.res]
+                inits_, steps_ = [], set()
+                while todo_:
+                    w_ = todo_.pop()
+                    if w_ in web_:
                         continue
-                    for step in (1, -1):
-                        want = _Pe.atom(d.res) - init - Ke * step
-                        if (D == want or D == -want) and (d, step) not in [(g_[1], g_[2]) for g_ in gates]:
-                            gates.append((c, d, step))
+                    web_.add(w_)
+                    for v_, _l in allphi[w_].incoming:
+                        pv_ = pce.val(v_)
+                        inner = [a_ for a_ in pv_.atoms() if a_ in allphi]
+                        if not inner:
+                            inits_.append(pv_)
+                        elif len(inner) == 1 and (pv_ - _Pe.atom(inner[0])).is_const():
+                            steps_.add((pv_ - _Pe.atom(inner[0])).const_value())
+                            todo_.append(inner[0])
+                        else:
+                            inits_.append(None)
+                if not inits_ or any(i_ is None or i_ != inits_[0] for i_ in inits_):
+                    continue
+                init = inits_[0]
+                for step in (1, -1):
+                    if not steps_ <= {0, step} or step not in steps_:
+                        continue
+                    want = _Pe.atom(d.res) - init - Ke * step
+                    if (D == want or D == -want) and (d, step) not in [(g_[1], g_[2]) for g_ in gates]:
+                        gates.append((c, d, step))
     if not gates:
         re_.undecided('count gate', loc=fs.mod.src, msg='no comparison of a counter with k found in fragments_to_string')
     for c, cphi, step in gates:
